@@ -1427,6 +1427,129 @@ def session_scram_nochallenge(r, mode):
         fail("session/scram/no-challenge-welcome-no-abort", f"no ABORT(cannot_authenticate): {ab}", rep)
 
 
+# the WELCOME grid: every combination of configured authenticators x CHALLENGE done or not x WELCOME.authmethod x
+# WELCOME.authextra shape.  Independent oracle: the session may join only if
+#   - authmethod names a configured authenticator, and
+#   - for "scram": a CHALLENGE completed and authextra is a dict whose "scram_server_signature" is text decoding to exactly
+#     HMAC(HMAC(SaltedPassword,"Server Key"), AuthMessage) of that exchange (the RFC 5802 server of this driver computes it),
+#   - without authmethod: only if an anonymous authenticator is configured;
+# and it must join in exactly those cases; a refused WELCOME must be answered with ABORT wamp.error.cannot_authenticate.
+W_CONFIGS = [["scram"], ["scram", "ticket"], ["scram", "anonymous"]]
+W_AUTHMETHODS = ["scram", None, "ticket", "anonymous", "wampcra", "SCRAM"]
+W_AUTHEXTRA = ["correct", "correct-bytes", "absent", "null", "empty", "other-key", "flip", "random", "empty-default", "garbage",
+               "sig-int", "sig-null", "sig-list", "sig-dict", "nondict"]
+
+
+def session_welcome_case(r, configured, challenged, authmethod, axshape):
+    from autobahn.wamp.types import ComponentConfig
+    password, authid = (gen_text(r, maxlen=10) or "pw"), "user"
+    try:
+        pw = password.encode("utf8")
+    except UnicodeEncodeError:
+        password, pw = "pw", b"pw"
+    s = ENV.session(mixin=_shim(), config=ComponentConfig(realm="realm1"))
+    scram = auth.create_authenticator("scram", authid=authid, password=password)
+    for name in configured:
+        s.s.add_authenticator(scram if name == "scram" else auth.create_authenticator(name, authid=authid, **({"ticket": "t"} if name == "ticket" else {})))
+    s.open()
+    hello = sends(s, 1)
+    rep = {"op": "session_welcome", "configured": configured, "challenged": challenged, "authmethod": authmethod, "authextra_shape": axshape, "password": cps(password)}
+    if len(hello) != 1 or sorted(hello[0][2].get("authmethods", [])) != sorted(configured):
+        fail("session/hello", f"unexpected HELLO {hello}", rep)
+        return
+    genuine = None
+    if challenged:
+        cn = hello[0][2]["authextra"]["nonce"]
+        sn = cn + base64.b64encode(r.randbytes(9)).decode()
+        salt = r.randbytes(16)
+        extra = {"nonce": sn, "kdf": "argon2id-13", "salt": base64.b64encode(salt).decode(), "iterations": 1, "memory": 8}
+        s.recv([4, "scram", extra])
+        srv = RfcScramServer.from_salted_password(argon_tag_text(argon2id_raw(pw, salt, 1, 8)))
+        am = RfcScramServer.auth_message(f"n={authid},r={cn}", f"r={sn},s={extra['salt']},i=1", f"c=,r={sn}")
+        au = sends(s, 5)
+        if len(au) != 1 or not srv.verify_client_proof(am, base64.b64decode(au[0][1])):
+            fail("session/scram/argon2id-13/authenticate-rejected", f"AUTHENTICATE {au} not accepted by the RFC 5802 server", rep)
+            return
+        genuine = srv.server_signature(am)
+    g = genuine if genuine is not None else r.randbytes(32)
+    details = {"roles": ROLES, "authid": authid, "authrole": "user", "authprovider": "static"}
+    if authmethod is not None:
+        details["authmethod"] = authmethod
+    ax = {"correct": {"scram_server_signature": base64.b64encode(g).decode()},
+          "correct-bytes": {"scram_server_signature": base64.b64encode(g)},
+          "null": None, "empty": {}, "other-key": {"signature": base64.b64encode(g).decode()},
+          "flip": {"scram_server_signature": base64.b64encode(flip(g, r.randrange(256))).decode()},
+          "random": {"scram_server_signature": base64.b64encode(r.randbytes(32)).decode()},
+          "empty-default": {"scram_server_signature": base64.b64encode(EMPTY_DEFAULT_SIG).decode()},
+          "garbage": {"scram_server_signature": "QUJ"},
+          "sig-int": {"scram_server_signature": 5}, "sig-null": {"scram_server_signature": None},
+          "sig-list": {"scram_server_signature": [base64.b64encode(g).decode()]},
+          "sig-dict": {"scram_server_signature": {"v": base64.b64encode(g).decode()}},
+          "nondict": [base64.b64encode(g).decode()]}.get(axshape, "ABSENT")
+    if axshape != "absent":
+        details["authextra"] = ax
+    REC.reset()
+    REC.on = True
+    try:
+        try:
+            s.recv([2, 4711, details])
+            parsed = True
+        except Exception as e:                      # Welcome.parse refuses the message: nothing reaches the session
+            parsed = False
+    finally:
+        REC.on = False
+    tb = REC.dump()
+    j = joined(s) or s.s._session_id is not None
+    ab = sends(s, 3)
+    evals[0] += 1
+    # ---- independent oracle ----
+    sig_exact = (genuine is not None and axshape in ("correct", "correct-bytes"))
+    if authmethod is None:
+        may = any(n in ("anonymous", "anonymous-proxy") for n in configured)
+        cls = "welcome-authmethod-absent"
+    elif authmethod == "scram":
+        may = sig_exact and parsed
+        cls = "welcome-authextra-" + ("exact" if sig_exact else axshape)
+    elif authmethod in configured:
+        may = parsed
+        cls = "welcome-authmethod-other-configured"
+    else:
+        may = False
+        cls = "welcome-authmethod-unconfigured"
+    if not parsed:
+        may = False
+    bump(f"session welcome cfg={'+'.join(configured)} chal={int(challenged)} am={authmethod} ax={axshape} " + ("joined" if j else "aborted" if ab else "silent"))
+    bump("session welcome " + ("joined" if j else "refused"))
+    if j and not may:
+        fail(f"session/scram/{cls}/joined-without-server-signature",
+             f"session with authenticators {configured} joined on WELCOME(authmethod={authmethod!r}, authextra {axshape}) "
+             f"{'after a completed SCRAM CHALLENGE/AUTHENTICATE' if challenged else 'WITHOUT any CHALLENGE'}: no server signature was verified", rep)
+    elif may and not j:
+        fail(f"session/scram/{cls}/not-joined", f"legitimate WELCOME refused: abort={ab[:1]}", rep)
+    elif parsed and not j and (len(ab) != 1 or ab[0][2] != "wamp.error.cannot_authenticate"):
+        fail("session/scram/refused-welcome-no-abort", f"WELCOME refused without ABORT(cannot_authenticate): {ab}", rep)
+    if parsed:
+        am_, sp_ = getattr(scram, "_auth_message", None), getattr(scram, "_salted_password", None)
+        if ax is None or axshape == "absent":
+            axm = None
+        elif "scram_server_signature" not in ax:
+            axm = {"dict": None}
+        else:
+            v = ax["scram_server_signature"]
+            axm = {"dict": pv(v) if isinstance(v, (str, bytes)) else "other"}
+        add_case({"kind": "session_welcome", "configured": [cps(n) for n in configured], "state": [None if am_ is None else am_.hex(), None if sp_ is None else sp_.hex()],
+                  "authmethod": None if authmethod is None else cps(authmethod), "ax": axm, "joined": bool(j), "tables": tb})
+
+
+def gen_session_welcome(reps):
+    r = random.Random(f"{inp['seed']}/welcome-grid/{FW}")
+    grid = [(c, ch, m, a) for c in W_CONFIGS for ch in (True, False) for m in W_AUTHMETHODS for a in W_AUTHEXTRA]
+    for _ in range(reps):
+        r.shuffle(grid)
+        for c, ch, m, a in grid:
+            session_welcome_case(r, c, ch, m, a)
+
+
 def session_cra(r):
     from autobahn.wamp.types import ComponentConfig
     secret, authid = gen_text(r, maxlen=20) or "s", "user"
@@ -1528,6 +1651,10 @@ def replay(rep):
                 ax = {} if o["sig"] is None else {"scram_server_signature": unpv(o["sig"])}
                 res.append(f"on_welcome({ax}) -> " + repr(call(a.on_welcome, _Sess(), ax)))
         return {"result": res}
+    if op == "session_welcome":
+        before = len(failures)
+        session_welcome_case(random.Random("replay"), rep["configured"], rep["challenged"], rep["authmethod"], rep["authextra_shape"])
+        return {"result": "conversation replayed: " + ("; ".join(f["key"] + " :: " + f["what"] for f in failures[before:]) or "as the oracle demands")}
     if op == "session_scram_nochallenge":
         from autobahn.wamp.types import ComponentConfig
         s = ENV.session(mixin=_shim(), config=ComponentConfig(realm="realm1"))
@@ -1559,7 +1686,7 @@ out = {}
 if "replay" in inp:
     out["replay"] = replay(inp["replay"])
 else:
-    parts = inp.get("parts", ["vectors", "cra", "totp", "scram", "history", "cs", "misc", "session"])
+    parts = inp.get("parts", ["vectors", "cra", "totp", "scram", "history", "cs", "misc", "session", "welcome"])
     if "vectors" in parts:
         for vf in inp.get("vector_files", []):
             run_vectors(json.load(open(vf)))
@@ -1570,6 +1697,7 @@ else:
     if "cs" in parts: gen_cs(inp.get("n_cs", 30), inp.get("exhaustive_every", 0))
     if "misc" in parts: gen_misc(inp.get("n_misc", 30))
     if "session" in parts: gen_session(inp.get("n_session", 12))
+    if "welcome" in parts: gen_session_welcome(inp.get("welcome_reps", 1))
     out = {"evaluations": evals[0], "cases": cases, "failures": failures, "hist": hist, "has_argon": auth.HAS_ARGON,
            "has_cryptosign": cryptosign.HAS_CRYPTOSIGN, "files": [auth.__file__, cryptosign.__file__, autil.__file__]}
 json.dump(out, open(sys.argv[2], "w"))
